@@ -111,6 +111,10 @@ func (e *Env) call(x *ECall) Val {
 		key := "E|" + typeKey(st.Elem())
 		g.ensureKey(key, g.sortOf(st.Elem()))
 		return Val{S: app("select", e.heapGet(key), app("s_arr", v.S)), Sort: fmt.Sprintf("(Array %s %s)", g.idxSort(), g.sortOf(st.Elem())), ElemGT: st.Elem()}
+	case "waited":
+		v := arg(0)
+		g.ensureKey("G|waited", "Bool")
+		return g.boolVal(app("select", e.heapGet("G|waited"), v.S))
 	case "elemptr":
 		v := arg(0)
 		st, ok := v.GT.Underlying().(*types.Slice)
